@@ -89,6 +89,12 @@ def Instance.uncovered (I : Instance) : List Nat :=
 def Instance.depsClosed (I : Instance) : Bool :=
   I.nodes.all fun n => (I.deps.getD n []).all fun m => I.nodes.contains m
 
+/-- the rules are Horn rules: no `terms`, constant 0 or 1; and only facts of the instance have a rule -/
+def Instance.hornOnly (I : Instance) : Bool :=
+  (List.range I.rules.size).all fun k =>
+    let r := I.rules.getD k {}
+    r.terms.isEmpty && decide (r.const ≤ 1) && (I.nodes.contains k || (r.const == 0 && r.conj.isEmpty))
+
 /-! ## dependency construction: `generate_dependencies` -/
 
 /-- `deps[sub].push(item)` for every allow-listed `item` (ascending) and every traced edge
